@@ -147,7 +147,8 @@ PropC15v(e) == e.ev = "asciivar" =>
        /\ P(e.printed, <<>>)!ParseText.msgs = P(e.text, <<>>)!ParseText.msgs        \* printed back
        /\ \A i \in 1..Len(e.fills) : LET f == e.fills[i] IN
              /\ f.refused = ~fits(f.len)                                             \* enforced when filled
-             /\ ~f.refused => NormJ(f.item) = [f |-> "L", e |-> <<[f |-> "A", s |-> [k \in 1..f.len |-> 120]]>>]
+             /\ ~f.refused => NormJ(f.item) = [f |-> "L", e |-> <<[f |-> "A", s |-> [k \in 1..f.len |-> 120]]>>
+                                               \o (IF e.viaell THEN <<[f |-> "A", s |-> [k \in 1..e.otherlen |-> 120]]>> ELSE <<>>)]
 
 \* ------------------------------------------------------------------ C06 on hostile inputs (isolated worker)
 PropC06h(e) == e.ev = "hostile" =>
